@@ -122,6 +122,13 @@ theorem op_single_tx (op : Op) : SingleTx (traceOf op) := by
     rcases hc with ((((rfl | rfl) | rfl) | (⟨x, -, rfl⟩ | rfl)) | rfl) <;> rfl
   | aclAdd acl r v => exact singleTxB_sound _ (by simp [singleTxB, traceOf, Call.isTxCtl])
   | treeDelete t => exact singleTxB_sound _ (by simp [singleTxB, traceOf, Call.isTxCtl])
+  | addAllNoError t dups chs heads cs =>
+    refine ⟨dups.map (fun d => Call.insertDup ⟨.changes, d⟩) ++ addAllBody t chs heads cs, by simp [traceOf], ?_⟩
+    intro c hc
+    simp only [addAllBody, List.mem_append, List.mem_map, List.mem_cons, List.not_mem_nil, or_false] at hc
+    rcases hc with ⟨x, -, rfl⟩ | ⟨x, -, rfl⟩ | rfl <;> rfl
+  | treeCreateChild t q =>
+    cases q <;> exact singleTxB_sound _ (by simp [singleTxB, traceOf, createStorageCalls, Call.isTxCtl])
 
 /-- consequence: every operation of the workload is all-or-nothing under a crash at any boundary -/
 theorem op_crash_atomic (s : Store) (op : Op) (k : Nat) :
@@ -178,6 +185,20 @@ theorem consistent_preserved_treeDelete (s : Store) (acl t : Nat) (hc : Consiste
     Consistent (exec (Db.idle s) (traceOf (.treeDelete t))).committed acl := by
   rw [committed_treeDelete]
   exact consistent_eraseTree s acl t hc
+
+/-- storage.AddAllNoError: changes that are stored already are skipped, the rest is one AddAll -/
+theorem consistent_preserved_addAllNoError (s : Store) (acl t : Nat) (dups : List Nat) (chs : List NewChange)
+    (heads : List Nat) (cs : Nat) (hacl : t ≠ acl) (hb : BatchOk s t chs heads cs) (hc : Consistent s acl) :
+    Consistent (exec (Db.idle s) (traceOf (.addAllNoError t dups chs heads cs))).committed acl := by
+  rw [committed_addAllNoError s t dups chs heads cs hb.fresh]
+  exact consistent_postAddAll s acl t chs heads cs hacl hb hc
+
+/-- CreateStorage of a derived tree bound to a parent (with or without the late-arriving-child mark) -/
+theorem consistent_preserved_treeCreateChild (s : Store) (acl t : Nat) (q : Bool) (hacl : t ≠ acl)
+    (hnew : s.get ⟨.changes, t⟩ = none) (hc : Consistent s acl) :
+    Consistent (exec (Db.idle s) (traceOf (.treeCreateChild t q))).committed acl := by
+  rw [committed_treeCreateChild s t q hnew]
+  exact consistent_postAddAll s acl t _ _ _ hacl (batchOk_root s t hnew) hc
 
 /-- spacestorage.Create on an empty database establishes the predicate -/
 theorem consistent_established_spaceCreate (space acl settings : Nat) (hne : settings ≠ acl) :
